@@ -135,7 +135,8 @@ class ErrorHandling:
                 # make up a token
                 token = Token()
                 token.type = token_name
-                token.value = value
+                # placeholders stand for a class of tokens: give the probe a value its grammar action can convert
+                token.value = {'[number]': '0', '[string]': "'s'"}.get(value, value)
                 token.end = 0
                 token.index = 0
                 token.lineno = 0
